@@ -29,7 +29,7 @@ Ooxml == {"docx", "xlsx", "pptx"}
 \* an EPUB for the DRM table: which resources are listed in encryption.xml and how
 Algos == {"idpf-obf", "adobe-obf", "aes128", "aes256", "unknown"}
 EpubSpace == [ rights : BOOLEAN,
-               enc    : SUBSET {"ch1", "ch2", "nav", "font", "font2", "font3", "img"},   \* ch1 = spine item *.xhtml, ch2 = spine item with an
+               enc    : SUBSET {"ch1", "ch2", "ch3", "nav", "font", "font2", "font3", "img"},   \* ch3 = spine item declared as image/svg+xml (an SVG content document, *.svg); ch1 = spine item *.xhtml, ch2 = spine item with an
                                                                                         \* unusual suffix, nav = the navigation document (a content
                                                                                         \* document that is not in the spine)
                rev    : BOOLEAN,                                                        \* entries of encryption.xml in reverse order
@@ -67,7 +67,7 @@ Spec == Init /\ [][Next]_vars
 RealDecoy == decoy # "none" /\ ~((decoy = "word" /\ kind = "docx") \/ (decoy = "xl" /\ kind = "xlsx") \/ (decoy = "ppt" /\ kind = "pptx"))
 
 Obf(a) == a \in {"idpf-obf", "adobe-obf"}
-ContentDocs == {"ch1", "ch2", "nav"}
+ContentDocs == {"ch1", "ch2", "ch3", "nav"}
 DrmVerdict(e) ==
     IF e.rights THEN "refused"
     ELSE IF e.enc = {} THEN "opens"
